@@ -13,6 +13,7 @@ CONSTANTS
   DGt = 400
   Wk = 60
   Ik = 5
+  B = 50
   Space = "replay"
   Variants = {}
 INVARIANT Verdict
